@@ -45,7 +45,10 @@ def worker(kp, job):
     if core_doc:
         from harness import tokens
         tokens_acc = True
-    g = docs.gen_doc(rng, chords=not core_doc, max_spines=3, measures=rng.randint(1, 3), early_end=(0.3 if idx % 3 == 0 else 0.0))
+    # every sixth document is longer and ends spines early with high probability: a split that is never joined (its sub-spines
+    # end with their own terminators) next to a spine that goes on for several measures
+    g = docs.gen_doc(rng, chords=not core_doc, max_spines=3, measures=(rng.randint(3, 6) if idx % 6 == 0 else rng.randint(1, 3)),
+                     early_end=(0.8 if idx % 6 == 0 else 0.3 if idx % 3 == 0 else 0.0))
     if core_doc:
         # the claimed core: single notes without explicit accidental
         for row in g.rows():
